@@ -67,6 +67,9 @@ func txnLabels(s kit.Schema, info *stepInfo) (labels []string, nontrivial bool) 
 	}
 	switch {
 	case info.Excluded != "":
+		if strings.HasPrefix(info.Excluded, "domain:") {
+			return []string{"excluded_" + info.Excluded}, false
+		}
 		return []string{"excluded_known:" + info.Excluded}, false
 	case info.Tolerated != "":
 		labels = append(labels, "outcome:tolerated-reject", "tolerated:"+info.Tolerated)
